@@ -8,11 +8,19 @@
 //! violation observed, 1 = violation(s), 2 = usage / nothing observed.
 
 mod engine;
+#[cfg(feature = "bytes")]
 mod gen;
 mod json;
+#[cfg(feature = "bytes")]
 mod mon;
+#[cfg(feature = "bytes")]
 mod odd_str;
+#[cfg(feature = "bytes")]
 mod patch_ref;
+#[cfg(feature = "bytes")]
+mod props;
+#[cfg(not(feature = "bytes"))]
+#[path = "props_nobytes.rs"]
 mod props;
 mod rng;
 mod text_gen;
